@@ -230,6 +230,42 @@ Section Full.
       rep t (o + 3 + length stmts + length body) rest f ->
       rep t o (CStartScope orig cur :: stmts ++ CStartTag tag sg :: body ++ CEndTagEndScope etag noend sg' :: rest)
               (TElem orig cur stmts tag etag noend bf :: f).
+
+  (* reading a program back as a forest (recursive descent, as Model/TALProg.check_items) *)
+  Fixpoint parse_forest (fuel : nat) (t : symtab) (o : nat) (l : list cmd) : option (list tnode * list cmd) :=
+    match fuel with
+    | O => None
+    | S f =>
+        match l with
+        | [] => Some ([], [])
+        | COutput s :: r =>
+            match parse_forest f t (S o) r with
+            | Some (fr, rest) => Some (TOut s :: fr, rest)
+            | None => None
+            end
+        | CEndTagEndScope _ _ _ :: _ => Some ([], l)
+        | CStartScope orig cur :: r =>
+            let '(h, r1) := span_head r in
+            match r1 with
+            | CStartTag tag _ :: r2 =>
+                if forallb tal_stmt h && head_sorted 0 h then
+                  match parse_forest f t (o + 2 + length h)%nat r2 with
+                  | Some (bf, CEndTagEndScope etag noend sg' :: r3) =>
+                      let e := (o + 2 + length h + (length r2 - length (CEndTagEndScope etag noend sg' :: r3)))%nat in
+                      if syms_ok t e h then
+                        match parse_forest f t (S e) r3 with
+                        | Some (fr, rest) => Some (TElem orig cur h tag etag noend bf :: fr, rest)
+                        | None => None
+                        end
+                      else None
+                  | _ => None
+                  end
+                else None
+            | _ => None
+            end
+        | _ => None
+        end
+    end.
 End Full.
 
 Arguments SBody {val}.
